@@ -13,7 +13,7 @@ def run(tier, seed):
     chains = tq.with_patch_options(tq.enumerate_series(q, d, allow_after_failure=0, plain_files={'f'}), d)
     # keep chains whose patches mostly touch f (several patches on one file), plus everything with <= 2 file patches
     seen, uniq = set(), []
-    for s in chains + (tq.enumerate_series(2, 1) if tier == 'quick' else tq.enumerate_series(2, 2)):
+    for s in chains + (tq.enumerate_series(2, 1) if tier == 'quick' else tq.enumerate_series(2, 2)) + tq.special_series(m0):
         k = tq.describe_series(s)
         if k not in seen:
             seen.add(k)
